@@ -14,6 +14,9 @@ pub mod oneshot {
                 // this postcondition, so a contract that claims it forces a send on every path)
                 super::answered(self, t),
         { unimplemented!() }
+        // observer: the receiving half was dropped (the caller gave up). Observing it changes nothing.
+        pub uninterp spec fn rx_gone(&self) -> bool;
+        #[verifier::external_body] pub fn is_closed(&self) -> (r: bool) ensures r == self.rx_gone() { unimplemented!() }
     }
 }
 #[verifier::external_body] pub struct SubscriptionReceiver { _p: u8 }
